@@ -84,10 +84,13 @@ type Explorer struct {
 	witSeen    int
 	WitMax     int
 	engineFails int
+	KnownMatch func(*Violation) string
+	violCount  map[string]int
+	newViol    int
 }
 
 func NewExplorer() *Explorer {
-	e := &Explorer{Stats: newStats(), MaxViol: 200, dumpBudget: 40}
+	e := &Explorer{Stats: newStats(), MaxViol: 60, dumpBudget: 40, violCount: map[string]int{}}
 	e.cond = sync.NewCond(&e.mu)
 	return e
 }
@@ -481,11 +484,24 @@ func (p *PathCtx) violation(id, kind, msg string, model map[string]uint64) {
 	}
 	v := &Violation{Harness: p.harness, AssertID: id, Kind: kind, Msg: msg, Model: m, Params: pr, Notes: append([]string(nil), p.notes...)}
 	ex := p.ex
+	if ex.KnownMatch != nil {
+		v.Known = ex.KnownMatch(v)
+	}
 	ex.mu.Lock()
-	ex.Violations = append(ex.Violations, v)
-	if len(ex.Violations) >= ex.MaxViol {
-		ex.stop = true
-		ex.cond.Broadcast()
+	key := v.AssertID + "|" + v.Known
+	ex.violCount[key]++
+	if v.Known != "" {
+		// listed findings: keep a few examples, never cut the exploration short
+		if ex.violCount[key] <= 3 {
+			ex.Violations = append(ex.Violations, v)
+		}
+	} else {
+		ex.Violations = append(ex.Violations, v)
+		ex.newViol++
+		if ex.newViol >= ex.MaxViol {
+			ex.stop = true
+			ex.cond.Broadcast()
+		}
 	}
 	ex.mu.Unlock()
 }
